@@ -1,0 +1,249 @@
+//! Verification hooks. Compiled only with `--cfg deltio_verif`; nothing in here is part of
+//! the normal build. Gives the external verification harness access to crate-private pure
+//! functions, an event log of atomic steps, and seeded scheduling points.
+
+use crate::subscriptions::{AckDeadline, AckId, DeadlineModification, PulledMessage};
+use crate::topics::{MessageId, TopicMessage};
+use std::cell::RefCell;
+use std::collections::HashMap;
+use std::sync::Arc;
+use tokio::time::Instant;
+
+pub use crate::api::publisher::PublisherService;
+pub use crate::api::subscriber::SubscriberService;
+
+thread_local! {
+    static LOG: RefCell<Vec<String>> = const { RefCell::new(Vec::new()) };
+    static LOG_ON: RefCell<bool> = const { RefCell::new(false) };
+    static YIELD_RNG: RefCell<u64> = const { RefCell::new(0) };
+    static MAILBOX_CAP: RefCell<usize> = const { RefCell::new(0) };
+}
+
+/// Appends an event to the thread-local event log (only while logging is enabled).
+pub fn log_event(f: impl FnOnce() -> String) {
+    let on = LOG_ON.with(|l| *l.borrow());
+    if on {
+        let s = f();
+        LOG.with(|l| l.borrow_mut().push(s));
+    }
+}
+
+pub fn set_logging(on: bool) {
+    LOG_ON.with(|l| *l.borrow_mut() = on);
+}
+
+pub fn take_log() -> Vec<String> {
+    LOG.with(|l| std::mem::take(&mut *l.borrow_mut()))
+}
+
+/// Seeds the scheduling points; 0 disables the extra yields.
+pub fn set_yield_seed(seed: u64) {
+    YIELD_RNG.with(|r| *r.borrow_mut() = seed);
+}
+
+/// Overrides the actor mailbox capacity (0 = keep the default).
+pub fn set_mailbox_capacity(cap: usize) {
+    MAILBOX_CAP.with(|c| *c.borrow_mut() = cap);
+}
+
+pub fn mailbox_capacity(default: usize) -> usize {
+    let cap = MAILBOX_CAP.with(|c| *c.borrow());
+    if cap == 0 {
+        default
+    } else {
+        cap
+    }
+}
+
+/// A scheduling point: yields to the runtime 0..=3 times, chosen by a seeded generator.
+pub async fn point() {
+    let n = YIELD_RNG.with(|r| {
+        let mut s = r.borrow_mut();
+        if *s == 0 {
+            return 0;
+        }
+        // splitmix64
+        *s = s.wrapping_add(0x9E37_79B9_7F4A_7C15);
+        let mut z = *s;
+        z = (z ^ (z >> 30)).wrapping_mul(0xBF58_476D_1CE4_E5B9);
+        z = (z ^ (z >> 27)).wrapping_mul(0x94D0_49BB_1331_11EB);
+        z ^= z >> 31;
+        z % 4
+    });
+    for _ in 0..n {
+        tokio::task::yield_now().await;
+    }
+}
+
+#[macro_export]
+macro_rules! verif_ev {
+    ($($arg:tt)*) => {
+        $crate::verif::log_event(|| format!($($arg)*))
+    };
+}
+
+// ---------------------------------------------------------------------------------------
+// Crate-private pure functions.
+
+pub fn parse_ack_id(raw: &str) -> Result<u64, tonic::Status> {
+    crate::api::verif_parser::parse_ack_id(raw).map(|a| a.to_string().parse::<u64>().unwrap())
+}
+
+pub fn parse_deadline_extension(raw: i32) -> Result<Option<u64>, tonic::Status> {
+    crate::api::verif_parser::parse_deadline_extension_duration(raw).map(|d| d.map(|d| d.as_secs()))
+}
+
+/// Returns (effective size, offset).
+pub fn parse_paging(size: i32, token: &str) -> Result<(usize, Option<usize>), tonic::Status> {
+    crate::api::verif_parser::parse_paging(size, token).map(|p| (p.size(), p.offset()))
+}
+
+pub fn parse_project_id(raw: &str) -> Result<String, tonic::Status> {
+    crate::api::verif_parser::parse_project_id(raw)
+}
+
+pub fn parse_topic_name(raw: &str) -> Result<crate::topics::TopicName, tonic::Status> {
+    crate::api::verif_parser::parse_topic_name(raw)
+}
+
+pub fn parse_subscription_name(
+    raw: &str,
+) -> Result<crate::subscriptions::SubscriptionName, tonic::Status> {
+    crate::api::verif_parser::parse_subscription_name(raw)
+}
+
+pub fn page_token_encode(value: usize) -> String {
+    crate::api::verif_page_token::PageToken::new(value).encode()
+}
+
+pub fn page_token_decode(raw: &str) -> Option<usize> {
+    crate::api::verif_page_token::PageToken::try_decode(raw).map(|t| t.into())
+}
+
+/// Returns, per parsed modification, (ack id, new deadline or None for a nack).
+pub fn parse_deadline_modifications(
+    now: Instant,
+    ack_ids: &[String],
+    seconds: &[i32],
+) -> Result<Vec<(u64, Option<Instant>)>, tonic::Status> {
+    crate::api::verif_parser::parse_deadline_modifications(now, ack_ids, seconds).map(|v| {
+        v.into_iter()
+            .map(|m| {
+                (
+                    m.ack_id.to_string().parse::<u64>().unwrap(),
+                    m.new_deadline.map(|d| d.time()),
+                )
+            })
+            .collect()
+    })
+}
+
+pub fn push_payload(
+    subscription: &Arc<crate::subscriptions::Subscription>,
+    message: &Arc<TopicMessage>,
+) -> String {
+    crate::push::push_loop::verif_encode_message_payload(subscription, message)
+}
+
+// ---------------------------------------------------------------------------------------
+// Direct access to the outstanding-message tracker.
+
+pub struct TrackerProbe {
+    inner: crate::subscriptions::verif_outstanding::OutstandingMessageTracker,
+}
+
+impl Default for TrackerProbe {
+    fn default() -> Self {
+        Self::new()
+    }
+}
+
+impl TrackerProbe {
+    pub fn new() -> Self {
+        Self {
+            inner: crate::subscriptions::verif_outstanding::OutstandingMessageTracker::new(),
+        }
+    }
+
+    pub fn add(&mut self, ack_id: u64, message_id: u64, deadline: Instant) {
+        let mut m = TopicMessage::new(bytes::Bytes::new(), None);
+        m.publish(
+            MessageId { value: message_id },
+            std::time::SystemTime::UNIX_EPOCH,
+        );
+        self.inner.add(PulledMessage::new(
+            Arc::new(m),
+            AckId::new(ack_id),
+            AckDeadline::new(&deadline),
+            1,
+        ));
+    }
+
+    pub fn remove(&mut self, ack_ids: &[u64]) -> Vec<(u64, u64)> {
+        self.inner
+            .remove(ack_ids.iter().map(|a| AckId::new(*a)))
+            .into_iter()
+            .map(|p| (ack_of(&p), p.message().id.value))
+            .collect()
+    }
+
+    /// `mods`: (ack id, Some(deadline) | None = nack). Returns the nacked (ack id, message id).
+    pub fn modify(&mut self, mods: &[(u64, Option<Instant>)]) -> Vec<(u64, u64)> {
+        let mods = mods
+            .iter()
+            .map(|(a, d)| match d {
+                Some(d) => DeadlineModification::new(AckId::new(*a), AckDeadline::new(d)),
+                None => DeadlineModification::nack(AckId::new(*a)),
+            })
+            .collect();
+        self.inner
+            .modify(mods)
+            .into_iter()
+            .map(|p| (ack_of(&p), p.message().id.value))
+            .collect()
+    }
+
+    pub fn take_expired(&mut self, now: Instant) -> Vec<(u64, u64)> {
+        self.inner
+            .take_expired(&now)
+            .into_iter()
+            .map(|p| (ack_of(&p), p.message().id.value))
+            .collect()
+    }
+
+    pub fn clear(&mut self) {
+        self.inner.clear()
+    }
+
+    pub fn len(&self) -> usize {
+        self.inner.len()
+    }
+
+    pub fn is_empty(&self) -> bool {
+        self.inner.len() == 0
+    }
+
+    pub fn next_expiration(&self) -> Option<Instant> {
+        self.inner.next_expiration().map(|d| d.time())
+    }
+
+    /// (messages sorted by ack id as (ack id, message id, deadline), expirations in set order).
+    #[allow(clippy::type_complexity)]
+    pub fn snapshot(&self) -> (Vec<(u64, u64, Instant)>, Vec<(Instant, u64)>) {
+        self.inner.verif_snapshot()
+    }
+}
+
+fn ack_of(p: &PulledMessage) -> u64 {
+    p.ack_id().to_string().parse::<u64>().unwrap()
+}
+
+/// Attribute maps in a canonical (sorted) order.
+pub fn sorted_attrs(attrs: &HashMap<String, String>) -> Vec<(String, String)> {
+    let mut v = attrs
+        .iter()
+        .map(|(k, v)| (k.clone(), v.clone()))
+        .collect::<Vec<_>>();
+    v.sort();
+    v
+}
